@@ -142,6 +142,10 @@ def inline_helpers(prog, f, depth=2):
         for hb in h2.blocks:
             nb = _shift_block(hb, k, boff)
             nb["origin"] = hb.get("origin") or h.key
+            if "subst" not in nb:
+                names = h.raw.get("generics") or []
+                cargs = (callee_of(call) or {}).get("args") or []
+                nb["subst"] = dict(zip(names, cargs)) if len(names) == len(cargs) else {}
             if nb["t"]["k"] == "return":
                 nb["s"].append({"k": "assign", "p": dest, "rv": ["use", ["mv", [k]]], "sp": nb["t"]["sp"]})
                 nb["t"] = {"k": "goto", "t": cont, "sp": nb["t"]["sp"]}
